@@ -1,17 +1,26 @@
 """C05 — JSGF compilation preserves the language of the grammar.
 
-Lean: SSVerif/Props/C05.lean (machine = denotation for every rule table; explored automaton accepts
-exactly the rule's denotation; a table that passes `tableMatches` has the JSGF denotation of the
-surface grammar; a passing `nfaEquiv` comparison means language equality; weights over Q).
+Lean (SSVerif/Props/C05.lean, all for every grammar / rule table, no bound on nesting or recursion):
+  C05_run_iff_der          leftmost-rewriting machine = inductive denotation
+  C05_desugar_preserves    the parser actions (groups, optionals, Kleene closures as internal rules) keep the
+                           JSGF denotation of every rule
+  C05_expand_correct       the mirror of expand_rule/expand_rhs refuses exactly the non-representable tops and
+                           otherwise builds an automaton with exactly the rule's language
+  C05_compile_correct      both together, against the surface JSGF semantics
+  C05_explore_sound, C05_comparison_decides, C05_compiled_language
+                           what a passing verified language comparison of a dumped FSG means
+  C05_weights_normalised   weights over Q sum to one per rule, normalisation is idempotent
 
-Tie / oracle, per generated surface grammar g (printed to JSGF text with comments, quoting, tags,
-nested groups, weights):
+Tie / oracle, per generated surface grammar g (printed to JSGF text with comments, quoting, tags, nested
+groups, weights), every rule of g used as top:
   (a) rule table dumped from the real scanner+parser (`jsgf->rules`) = `desugar g` up to the numbering of
       internal rules;
-  (b) for every rule as top: "the real compiler builds an FSG" = `representable (desugar g) top`;
+  (b) "the real compiler builds an FSG" = `representable (desugar g) top`;
   (c) when built: verified `nfaEquiv` of the real FSG (raw and closed, dumped through the real arc iterator)
       against `explore (desugar g) top`; a distinguishing sentence is confirmed by the verified membership
-      decision on both sides;
+      decision on both sides (implementation-side oracle);
+  (c') the raw FSG has exactly the states, links and probabilities of `expandTop (desugar g) top` (the object
+      C05_expand_correct is about), modulo fsg_model's merging of duplicate links / dropping of null self-loops;
   (d) first-atom weights after the build = `normaliseRule` over Q (float tolerance); every choice point of
       the raw FSG has outgoing probabilities summing to one;
   (e) the rule stack is empty after every build (a later build of another rule is not influenced);
